@@ -15,6 +15,7 @@ import (
 	"io"
 	"math/rand"
 	"sort"
+	"strings"
 	"sync"
 	"unicode/utf8"
 
@@ -175,7 +176,7 @@ func lossKey(doc, got []byte, err error) string {
 		if longestLine(doc) >= bufio.MaxScanTokenSize {
 			return "limit:styling:64k"
 		}
-		return "lossy:styling:too-long-below-64k"
+		return "lossy:styling:too-long-short-lines"
 	}
 	return "lossy:styling:" + cause
 }
@@ -188,6 +189,12 @@ func checkDoc(c *core.Case, doc []byte, class string, r *rand.Rand) {
 	c.Count("documents_"+class, 1)
 	if !utf8.Valid(doc) {
 		c.Count("documents_with_invalid_utf8", 1)
+	}
+	if len(doc) > bufio.MaxScanTokenSize && longestLine(doc) < 4096 {
+		c.Count("documents_over_64k_with_short_lines", 1)
+		if strings.HasPrefix(class, "tail-64k-hostile-") {
+			c.Count("hostile_rune_at_"+strings.TrimPrefix(class, "tail-64k-hostile-")+"_then_64k", 1)
+		}
 	}
 	if ll := longestLine(doc); ll >= 4096 {
 		c.Count("documents_with_line_over_4k", 1)
@@ -411,13 +418,13 @@ func Prop() *core.Prop {
 	return &core.Prop{
 		ID:    "C17",
 		Level: core.Exploration,
-		Rule:  "documents are PRNG byte strings: directive-alphabet soup with per-document densities (0-400 bytes, 1% of 4000-4300 bytes straddling bufio's 4096-byte start buffer), structured documents (nested spans, pre spans holding directives, quotes of depth 1-3 with varying prefixes and depth changes, pre blocks with info strings / unterminated / inside quotes, Unicode spaces, invalid UTF-8), byte-level mutations of those, 2% documents with a line of 2-60 KiB, and one case in 1000 with a line of 64 KiB or more (limit probe). Each document is decoded whole, byte-by-byte, in 6 PRNG chunkings (a few cuts, pieces of 1-3 bytes, pieces of 1-8 bytes) and 2 deliveries whose last piece arrives together with io.EOF (documents over 4500 bytes: whole, 3 chunkings with pieces of 200-6200 bytes, 2 EOF-carrying); every delivery is checked for the Next-call bound 4*len+16, panics, losslessness and equality of the (data, mask, quote depth, info) sequence with the reference delivery, every distinct sequence for the bracket discipline; styling.Scan() runs on a bufio.Scanner (buffer limit lifted) under 5 of the deliveries. A case is non-trivial when some token carries a style bit; distinct = distinct documents among those.",
+		Rule:  "documents are PRNG byte strings: directive-alphabet soup with per-document densities (0-400 bytes, 1% of 4000-4300 bytes straddling bufio's 4096-byte start buffer), structured documents (nested spans, pre spans holding directives, quotes of depth 1-3 with varying prefixes and depth changes, pre blocks with info strings / unterminated / inside quotes, Unicode spaces, invalid UTF-8), byte-level mutations of those, 3% documents of more than 64 KiB made of short non-blank lines (an optional preamble, then a head - two thirds a byte sequence that utf8.DecodeRune reports as (RuneError,1), or a control rune, placed right after a block-quote prefix of depth 1-3, after an opening or closing span directive, or at a fence boundary; one third a small soup/structured/mutated document - then 64-72 KiB of short lines), 2% documents with a line of 2-60 KiB, and one case in 1000 with a line of 64 KiB or more (limit probe). Each document is decoded whole, byte-by-byte, in 6 PRNG chunkings (a few cuts, pieces of 1-3 bytes, pieces of 1-8 bytes) and 2 deliveries whose last piece arrives together with io.EOF (documents over 4500 bytes: whole, 3 chunkings with pieces of 200-6200 bytes, 2 EOF-carrying); every delivery is checked for the Next-call bound 4*len+16, panics, losslessness and equality of the (data, mask, quote depth, info) sequence with the reference delivery, every distinct sequence for the bracket discipline; styling.Scan() runs on a default bufio.Scanner under 5 of the deliveries (never on the limit probe). A case is non-trivial when some token carries a style bit; distinct = distinct documents among those.",
 		Assumptions: []string{
 			"a reader may return its last bytes together with io.EOF (io.Reader permits it; the package's own TestEOFPre uses such a reader); divergences that need this are keyed chunk:styling:eof-with-data:*",
 			"Style() and Quote() are read right after Token(), as the package's tests do",
 			"the span style bits of a token are expected to equal the set of spans open at that token (read as part of 'style bookkeeping is consistent'); this never fired on the unchanged tree",
 			"per child process at most 25 cases are written out per class key, the rest are counted in violations_beyond_report_cap (keeps the thorough tier's report bounded on a tree where a third of all documents hit a defect)",
-			"the token limit of a caller-owned bufio.Scanner used with styling.Scan() is the caller's choice; only NewDecoder's private Scanner is judged for limit:styling:64k",
+			"a token of 64 KiB or more is only ever required by a line of that length (key limit:styling:64k, Decoder only); bufio.ErrTooLong on a document whose lines are all shorter is a loss caused by the split function and is keyed lossy:styling:too-long-short-lines",
 		},
 		Cases: func(tier string) int {
 			if tier == "thorough" {
@@ -432,6 +439,8 @@ func Prop() *core.Prop {
 			"documents_with_quote_depth_ge2", "virtual_quote_end_tokens", "pre_block_with_info", "pre_block_closed",
 			"byte_by_byte_compared", "eof_with_data_compared", "scan_deliveries_compared",
 			"documents_with_invalid_utf8", "documents_with_line_over_32k", "limit_probes",
+			"documents_over_64k_with_short_lines", "hostile_rune_at_quote-prefix_then_64k", "hostile_rune_at_span-start_then_64k",
+			"hostile_rune_at_span-end_then_64k", "hostile_rune_at_fence_then_64k",
 		},
 	}
 }
